@@ -31,6 +31,7 @@ import (
 	"github.com/echovault/sugardb/internal"
 	"github.com/echovault/sugardb/internal/constants"
 	"github.com/echovault/sugardb/internal/eviction"
+	"github.com/echovault/sugardb/verifhook"
 )
 
 // SwapDBs swaps every TCP client connection from database1 over to database2.
@@ -190,7 +191,9 @@ func (server *SugarDB) getValues(ctx context.Context, keys []string) map[string]
 	}
 
 	// Asynchronously update the keys in the cache.
+	verifhook.AsyncBegin()
 	go func(ctx context.Context, keys []string) {
+		defer verifhook.AsyncEnd()
 		if _, err := server.updateKeysInCache(ctx, keys); err != nil {
 			log.Printf("getValues error: %+v\n", err)
 		}
@@ -264,7 +267,9 @@ func (server *SugarDB) setValues(ctx context.Context, entries map[string]interfa
 	}
 
 	// Asynchronously update the keys in the cache.
+	verifhook.AsyncBegin()
 	go func(ctx context.Context, entries map[string]interface{}) {
+		defer verifhook.AsyncEnd()
 		for key, _ := range entries {
 			_, err := server.updateKeysInCache(ctx, []string{key})
 			if err != nil {
@@ -296,7 +301,9 @@ func (server *SugarDB) setExpiry(ctx context.Context, key string, expireAt time.
 
 	// If touch is true, update the keys status in the cache.
 	if touch {
+		verifhook.AsyncBegin()
 		go func(ctx context.Context, key string) {
+			defer verifhook.AsyncEnd()
 			_, err := server.updateKeysInCache(ctx, []string{key})
 			if err != nil {
 				log.Printf("setExpiry error: %+v\n", err)
